@@ -1,6 +1,6 @@
-\* exhaustive: core T, every stationary-flag setting, tracking on and off, depth-bounded
-CONSTANTS NL = 5  NA0 = 4  NP0 = 1  NF = 2  MB = 3  MaxCascade = 3  MaxLevel = 4  ReAdd = TRUE
-CONSTANTS Layout <- LayoutT  Place <- PlaceT  SFlagSets <- FlagsGPS  TrackSet <- Both  Go <- GoBounded
+\* exhaustive: core T, stationary-flag setting {G,S}, built and database-loaded, tracking on and off, depth-bounded
+CONSTANTS NL = 5  NA0 = 4  NP0 = 1  NF = 2  MB = 3  MaxCascade = 3  MaxLoop = 3  MaxChain = 2  MaxLevel = 4  ReAdd = TRUE
+CONSTANTS Layout <- LayoutT  Place <- PlaceT  SFlagSets <- FlagsT2  TrackSet <- Both  DbSet <- Both  Go <- GoBounded
 INIT Init
 NEXT Next
 CONSTRAINT Bound
@@ -19,9 +19,12 @@ INVARIANT ContentsUnchanged
 INVARIANT BlocksPartition
 INVARIANT BlockOrderKept
 INVARIANT NoFlagsNoExchange
+INVARIANT LookupsAgree
 PROPERTY PlacedWhereAsked
 PROPERTY StationaryStay
 PROPERTY RefusalsChangeNothing
 PROPERTY DischargeDestination
 PROPERTY MovesCounted
+PROPERTY QueriesChangeNothing
+PROPERTY LabelsKept
 CHECK_DEADLOCK FALSE
